@@ -307,10 +307,28 @@ func shallowKey(rv reflect.Value) interface{} {
 }
 
 // unpack: {"ty": type, "old": goval, "from": godata, "copts": [...], "uopts": [...]}
+// prep runs harness-side preparation; a panic in it is a harness problem (e.g. a shrunk case with an
+// unnamed struct field), never a finding about the library
+func prep(f func()) (msg string) {
+	defer func() {
+		if r := recover(); r != nil {
+			msg = fmt.Sprint("case preparation: ", r)
+		}
+	}()
+	f()
+	return ""
+}
+
 func kUnpack(c J) interface{} {
-	t := buildType(c["ty"])
-	target := reflect.New(t)
-	setValue(target.Elem(), c["old"])
+	var t reflect.Type
+	var target reflect.Value
+	if msg := prep(func() {
+		t = buildType(c["ty"])
+		target = reflect.New(t)
+		setValue(target.Elem(), c["old"])
+	}); msg != "" {
+		return J{"harness": msg}
+	}
 	cfg, err := ucfg.NewFrom(buildValue(c["from"]), buildOpts(c["copts"])...)
 	if err != nil {
 		return J{"create": errKind(err)}
@@ -333,9 +351,15 @@ func init() { kinds["roundtrip"] = kRoundtrip }
 
 // roundtrip: {"ty": struct type, "val": goval, "opts": [...]} -> NewFrom(value) then Unpack into a zero value
 func kRoundtrip(c J) interface{} {
-	t := buildType(c["ty"])
-	src := reflect.New(t)
-	setValue(src.Elem(), c["val"])
+	var t reflect.Type
+	var src reflect.Value
+	if msg := prep(func() {
+		t = buildType(c["ty"])
+		src = reflect.New(t)
+		setValue(src.Elem(), c["val"])
+	}); msg != "" {
+		return J{"harness": msg}
+	}
 	opts := buildOpts(c["opts"])
 	var in interface{} = src.Elem().Interface()
 	if boolD(c, "byPtr", false) {
